@@ -182,6 +182,12 @@ func init() {
 		in := append([]byte{}, a[0].B...)
 		in = in[:len(in):len(in)]
 		pkt, err := packet.FromBytes(in)
+		// a second packet from the same slice: both are the caller's, neither may follow the other or the slice
+		pkt2, err2 := packet.FromBytes(in)
+		if (err == nil) != (err2 == nil) || (pkt == nil) != (pkt2 == nil) || (pkt != nil && (*pkt != *pkt2 || pkt == pkt2)) {
+			noteUnstable("FromBytes twice on one slice: the results differ or are the same object")
+		}
+		keepPkt("second packet from FromBytes", pkt2)
 		unchanged := bytes.Equal(in, a[0].B)
 		var pv Val = VL()
 		alias := false
@@ -373,7 +379,9 @@ func init() {
 	register("pay.view", func(a []Val) Val {
 		p := pktOf(a[0])
 		before := *p
-		v1 := guard(func() Val { b, err := packet.Payload(p); return vresBytes(b, err) })
+		v1 := twice("packet.Payload", func() Val {
+			return guard(func() Val { b, err := packet.Payload(p); return vresBytes(keep("packet.Payload view", b), err) })
+		})
 		copyOK := true
 		v2 := guard(func() Val {
 			b, err := p.Payload()
@@ -388,8 +396,10 @@ func init() {
 			}
 			return vresBytes(b, err)
 		})
-		v3 := guard(func() Val { return VOk(VB(packet.Header(p))) })
-		v4 := guard(func() Val { b, err := packet.PESHeader(p); return vresBytes(b, err) })
+		v3 := twice("packet.Header", func() Val { return guard(func() Val { return VOk(VB(keep("packet.Header view", packet.Header(p)))) }) })
+		v4 := twice("packet.PESHeader", func() Val {
+			return guard(func() Val { b, err := packet.PESHeader(p); return vresBytes(keep("packet.PESHeader view", b), err) })
+		})
 		return VL(v1, v2, v3, v4, VBool(*p == before), VBool(copyOK))
 	})
 	register("pay.set", func(a []Val) Val {
@@ -452,6 +462,49 @@ func init() {
 		return out
 	}
 	register("pay.create", func(a []Val) Val { return VB(packet.Create(a[0].Int(), optsOf(a[1].L)...)[:]) })
+	// pay.create2 <pid> <opts> <k>: ONE option slice with spare capacity, used three times
+	register("pay.create2", func(a []Val) Val {
+		all := optsOf(a[1].L)
+		k := a[2].Int()
+		if k < 0 || k > len(all) {
+			return VBad()
+		}
+		backing := make([]func(*packet.Packet), len(all), len(all)+8)
+		copy(backing, all)
+		// the caller's slice must keep naming the options the caller wrote, also beyond the prefix passed in
+		keepList("option slice passed to Create", backing)
+		p1 := packet.Create(a[0].Int(), backing[:k]...)
+		keepPkt("packet returned by the first Create", p1)
+		p2 := packet.Create(a[0].Int(), backing...)
+		keepPkt("packet returned by the second Create", p2)
+		p3 := packet.Create(a[0].Int(), backing[:k]...)
+		return VL(VB(p1[:]), VB(p2[:]), VB(p3[:]))
+	})
+	// pay.setown <pkt> <lo> <hi>: SetPayload with a part of the packet's OWN payload view as argument
+	register("pay.setown", func(a []Val) Val {
+		p := pktOf(a[0])
+		lo, hi := a[1].Int(), a[2].Int()
+		bad := false
+		r := guard(func() Val {
+			v, err := packet.Payload(p)
+			if err != nil {
+				return VErr(errCode(err))
+			}
+			if lo < 0 || lo > hi || hi > len(v) {
+				bad = true
+				return VBad()
+			}
+			n, err := p.SetPayload(v[lo:hi])
+			if err != nil {
+				return VErr(errCode(err))
+			}
+			return VOk(VI(int64(n)))
+		})
+		if bad {
+			return VBad()
+		}
+		return VL(VB(p[:]), r, vgetters(p))
+	})
 	register("pay.create_test", func(a []Val) Val {
 		return VB(packet.CreateTestPacket(a[0].Int(), uint8(a[1].U()), isTrue(a[2]), isTrue(a[3]))[:])
 	})
